@@ -284,6 +284,22 @@ void vf::run_case(Src &s, Ctx &c)
     c.count(std::string("planner:") + pi.name);
     c.count(std::string("objective:") + objName(os.kind));
     const std::string pkey = std::string("/") + pi.name;
+    // A quarter of the cases (decided by the already decoded seed; no saved case has such a seed) run the planner with some of its declared
+    // switches off their defaults (stop on each improvement, pruning, k-nearest, delayed collision checking, ...)
+    if (seed % 4 == 2)
+    {
+        try
+        {
+            std::string flipped = flipSwitchesHashed(pl, seed);
+            c.note("switches:%s\n", flipped.empty() ? " (none declared)" : flipped.c_str());
+            c.count(flipped.empty() ? "params:defaults" : "params:switches-flipped");
+        }
+        catch (const ompl::Exception &e)
+        {
+            c.count("outcome:configuration-rejected");
+            throw Skip{std::string("parameter value rejected: ") + e.what()};
+        }
+    }
     try
     {
         pl->setProblemDefinition(P->pdef);
